@@ -20,6 +20,84 @@ CLAUSE_PROPS = {
 }
 
 
+def feature(h):
+    """what a history exercises, for stratified sampling: storage of the matrix x (fact, memory mode, refact, trans class) of its expert calls"""
+    st = h[0].get("stype", "NC") if h else "NC"
+    f = set()
+    for c in h:
+        if c["call"] == "gssvx":
+            f.add((st, c.get("fact"), c.get("lw"), bool(c.get("refact")), c.get("trans") != "N"))
+        elif c["call"] == "gssv":
+            f.add((st, "gssv"))
+    return tuple(sorted(f, key=str))
+
+
+def stratified_sample(hs, count, rng, feat=feature):
+    """round-robin over the feature classes so that rare combinations (row-wise + FACTORED, query + refact, ...) are always present"""
+    if len(hs) <= count:
+        return list(hs)
+    buckets = {}
+    for h in hs:
+        buckets.setdefault(feat(h), []).append(h)
+    keys = sorted(buckets, key=str)
+    rng.shuffle(keys)
+    for k in keys:
+        rng.shuffle(buckets[k])
+    out = []
+    while len(out) < count:
+        progressed = False
+        for k in keys:
+            if buckets[k] and len(out) < count:
+                out.append(buckets[k].pop())
+                progressed = True
+        if not progressed:
+            break
+    return out
+
+
+def atoms(h):
+    """per-call features of a history: (storage, call kind, fact, memory mode, refact)"""
+    st = h[0].get("stype", "NC") if h else "NC"
+    out = set()
+    for c in h:
+        if c["call"] == "gssvx":
+            out.add((st, "gssvx", c.get("fact"), c.get("lw"), bool(c.get("refact"))))
+            out.add((st, "trans", c.get("trans")))
+        elif c["call"] == "gssv":
+            out.add((st, "gssv"))
+        elif c["call"] == "mat" and c.get("sing"):
+            out.add((st, "singular"))
+    return out
+
+
+def covering_sample(hs, count, rng, precs=("d", "s", "z", "c")):
+    """greedy cover: (history, precision) pairs chosen so that every per-call feature is exercised in every precision
+    as evenly as the budget allows (a defect in one precision's copy of one driver path needs exactly one such pair)"""
+    cov = {}
+    pool = list(hs)
+    rng.shuffle(pool)
+    at = [atoms(h) for h in pool]
+    used = set()
+    out = []
+    for _ in range(min(count, len(pool))):
+        best, bs = None, -1.0
+        for p in rng.sample(list(precs), len(precs)):
+            for i, a in enumerate(at):
+                if i in used or not a:
+                    continue
+                sc = sum(1.0 / (1 + cov.get((x, p), 0)) ** 2 for x in a)
+                if sc > bs:
+                    best, bs = (i, p), sc
+        if best is None:
+            break
+        i, p = best
+        used.add(i)
+        for x in at[i]:
+            cov[(x, p)] = cov.get((x, p), 0) + 1
+        out.append((pool[i], p))
+    return out
+
+
 def run_histories(ck, alphabet, depth, count, rng, precs=("d",), threads=(1, 2, 4), nmax=24, pert=None,
                   validate_pipe=True, variant="verif", hist_filter=None, script_kw=None, extra_judge=None, enum_timeout=600):
     wd = os.path.join(ck.dir, "api")
@@ -31,12 +109,11 @@ def run_histories(ck, alphabet, depth, count, rng, precs=("d",), threads=(1, 2, 
     if not hs:
         ck.violation("enum", "TLC enumerated no history: %s" % r["errors"][:2])
         return
-    sample = hs if len(hs) <= count else rng.sample(hs, count)
+    sample = covering_sample(hs, count, rng, precs)
     items = []
-    for i, h in enumerate(sample):
-        prec = precs[i % len(precs)]
-        if prec in ("c", "z") and (i // len(precs)) % 3 != 0:
-            # complex CONJ is a recorded known finding (F16): keep a few such histories to re-confirm it,
+    for i, (h, prec) in enumerate(sample):
+        if prec in ("c", "z") and (ck.pid != "C07" or (i // len(precs)) % 3 != 0):
+            # complex CONJ is a recorded known finding (F16): C07 keeps a few such histories to re-confirm it,
             # and let the others exercise the transposed solve instead so that the rest of the history is validated
             h = [dict(c, trans="T") if c.get("trans") == "C" else c for c in h]
         items.append((i, h, prec, api.script_of(h, rng, nmax=nmax, threads=threads, pert=pert, **(script_kw or {}))))
